@@ -11,3 +11,4 @@ def run(ck):
     algebra.r12_zero_src(ck, P)
     traps.r6_trap_extents(ck, P)
     traps.r7_error_term_width(ck, P)
+    traps.r8_fill_count_restart(ck, P)
